@@ -94,6 +94,15 @@ theorem extrudeLine_wf (n : Nat) {m : MeshVal α}
     (h : IsPrim m (extrudeLineVerts n) (extrudeLineTris n)) : WF m :=
   prim_wf h (extrudeLineTris_lt n) (extrudeLineTris_len n)
 
+/-- `extrude.ScrewNodeData.Process` for every line length and segment count (with fewer than 2 of either the
+    node returns the empty mesh) -/
+theorem screw_wf (lineLen segments : Nat) {m : MeshVal α}
+    (h : IsPrim m (screwVerts lineLen segments) (screwTris lineLen segments)) : WF m :=
+  prim_wf h (screwTris_lt lineLen segments) (screwTris_len lineLen segments)
+
+example : IsPrim (⟨.triangle, screwTris 3 2, [], [(⟨3, "Position"⟩, List.replicate 6 ())]⟩ : MeshVal Unit)
+    (screwVerts 3 2) (screwTris 3 2) := ⟨rfl, rfl, by simp, by simp [screwVerts]⟩
+
 /-- `extrude.polygon` (`Polygon`, `Circle.Extrude`, `CircleAlongSpline.Extrude`): whatever the
     floating point winding test decides for each quad (`flips`), the mesh is well-formed. -/
 theorem extrudePolygon_wf (pathLen sides : Nat) (closed : Bool) (flips : List Bool) {m : MeshVal α}
